@@ -1,0 +1,6 @@
+//go:build !verif
+
+package pdf
+
+// verifSched is a no-op unless the "verif" build tag is set.
+func verifSched(string, Reference) {}
